@@ -29,7 +29,7 @@ ASSUMPTIONS = [
     "sheet names in 3-D references: bare for a word (first character a letter, '_' or non-ASCII; then the same, digits or '.'), else between apostrophes with apostrophes doubled; names that read as a cell reference or a boolean (A1, R1C1, TRUE), which Excel also quotes, are rendered bare by code and spec alike (residual, notes/C14.md)",
     "PtgAttrSpace / PtgAttrSpaceSemi (white space typed into the formula) are display-neutral in the spec: the A1 text of the property's grammar has no white space; both decoders skip them",
     "PtgFuncVar with tab 0x00FF: in domain when the first parameter is a PtgName (EName); with any other first operand the decoders print that operand's text in the name position (compared implementation vs model only)",
-    "external-workbook references (iSupBook not the internal SupBook) and multi-sheet 3-D spans (itabFirst <> itabLast) are outside the property's grammar; calamine ignores iSupBook/itabLast",
+    "3-D references go through the XTI table and the supporting links (xls: the SupBook records; xlsb: the BrtSup* records of the EXTERNALS block, in record order): itabFirst / itabLast are sheets of this workbook exactly when the XTI's link is this workbook (SupBook 0x0401 / BrtSupSelf / BrtSupSame); a span of sheets reads First:Last; through a link to another workbook the spec writes [n]Sheet!A1 with that workbook's sheet names (n counts the links to other workbooks) — calamine never reads iSupBook: known finding K_EXTERN_BOOK (class Ptg.known_C14: the formula goes through an XTI whose link is not this workbook; C14_refuted_extern_xls / _xlsb)",
     "defined names: every Lbl / BrtName / definedName / named-range record of the file is a defined name (the code filters nothing; hidden and built-in names keep their slot); an xls built-in name (fBuiltin + a one-character id of MS-XLS 2.5.114) is _xlnm.<Name>, the string the xlsx / xlsb twins store; an id outside the table or a longer string with fBuiltin is reported as stored",
     "xls shared formulas: a relative component of PtgRefN / PtgAreaN is an offset from the cell using the formula; rows wrap modulo 65536, columns modulo 256 (the low 8 bits of the column field are the offset); an area whose corners end up inverted after wrapping is printed as translated (Excel would normalise it); array formulas are reported as the plain text of the ARRAY record on every cell of the range (no braces); a PtgExp cell whose group has no SHRFMLA / ARRAY record has no text",
     "xlsb shared formulas: a relative component of PtgRefN / PtgAreaN is an offset from the cell using the formula; rows wrap modulo 1048576, columns modulo 16384 (MS-XLSB RgceLocRel: 32-bit row, 14-bit column field); the group a PtgExp cell uses is the one whose BrtShrFmla / BrtArrFmla record follows the cell PtgExp names (row in the token, column in rgcb = PtgExtraCol), and that cell comes first in the sheet (rows and columns ascend); a PtgExp cell naming a cell that has started no group, or carrying no column (cb = 0), has no text and is absent like every xlsb cell without text; array formulas are reported as the plain text of the BrtArrFmla record on every cell; an inverted area after wrapping is printed as translated",
@@ -38,7 +38,8 @@ ASSUMPTIONS = [
 ]
 
 U32 = 2**32 - 1
-KNOWN_NAMES = {}      # no known class is left (K_STR_WIDE fixed by a3d91ee, K_STR_QUOTE by 6ef7f34)
+KNOWN_NAMES = {}      # the model side answers the finding ids themselves (K_EXTERN_BOOK)
+KNOWN_EXTERN = "K_EXTERN_BOOK"
 
 
 def hx(s):
@@ -235,13 +236,45 @@ class Gen:
         self.ctx.count("%s:refn:row_%s,col_%s" % (self.fmt, "rel" if rr else "abs", "rel" if cr else "abs"))
         return "%d %d %d %d" % (r, c, rr, cr)
 
-    def env(self):
+    def isup(self):
+        """the supporting link of a new XTI: mostly one that stands for this workbook"""
+        rng = self.rng
+        if len(self.links) == 1 and self.links[0][0] == "self":
+            return 0
+        if rng.random() < 0.8:
+            return rng.choice(self.local)
+        v = rng.choice([i for i in range(len(self.links) + 1) if i not in self.local])
+        self.ctx.count("%s:xti:link_%s" % (self.fmt, self.links[v][0] if v < len(self.links) else "out_of_range"))
+        return v
+
+    def env(self, links=False):
+        """links: the tier hands the supporting links to the spec (ptg_ast … LINKS) and, when it writes a file,
+        stores them in it; otherwise the only link is this workbook and every XTI points at it"""
         rng = self.rng
         pool = ["Sheet1", "Sheet2", "Data", "My Sheet", "Übersicht", "数据", "S", "a'b", "Sheet 10", "Δ",
                 "O'Neil", "2024", "tax.rate", "A-B", "'q'", "1a", ".x", "x y'z"]
         ns = rng.randrange(1, 6)
         self.sheets = rng.sample(pool, ns)
         self.names = rng.sample(["rate", "Total", "x", "名前", "_n1", "Prix_€"], rng.randrange(0, 4))
+        self.links, self.local = fg.random_links(rng, self.fmt) if links else ([("self",)], [0])
+        self.bundle, self.xtis_b = None, None
+        if links:
+            self.ctx.count("%s:links:%s" % (self.fmt, fg.links_tag(self.links)))
+        if self.fmt == "xlsb" and links:
+            # the table the decoder gets is resolved from the XTI array against the workbook's sheets
+            self.bundle = self.sheets
+            xt = []
+            for _ in range(rng.randrange(0, 6)):
+                p = rng.random()
+                f = rng.randrange(0, ns) if p < 0.75 else rng.choice([-1, -2]) if p < 0.9 else rng.choice([ns, ns + 3, 70000])
+                l_ = f
+                if rng.random() < 0.25:
+                    l_ = rng.randrange(0, ns) if rng.random() < 0.85 else rng.choice([-1, ns, 70000])
+                xt.append((self.isup(), f, l_))
+            self.xtis_b = xt
+            self.sheets = [fg.xlsb_resolve_xti(x[1], self.bundle, x[2]) for x in xt]
+            self.xtis, self.nixti = None, len(xt)
+            return self
         if self.fmt == "xls":
             xt = []
             for _ in range(rng.randrange(0, 6)):
@@ -254,7 +287,12 @@ class Gen:
                     f = rng.choice([ns, ns + 1, 32767, 32768, 40000])
                 else:
                     f = rng.randrange(0, ns)
-                xt.append((rng.choice([0, 0, 0, 1]), f, f))
+                l_ = f
+                if rng.random() < 0.25:
+                    # a span of sheets First:Last (itabLast another sheet), sometimes an invalid last sheet
+                    l_ = rng.randrange(0, ns) if rng.random() < 0.85 else rng.choice([ns, 65535, 40000])
+                    self.ctx.count("xls:xti:span" if l_ != f and l_ < ns else "xls:xti:last_invalid_or_same")
+                xt.append((self.isup(), f, l_))
             self.xtis = xt
             self.nixti = len(xt)
         else:
@@ -262,11 +300,20 @@ class Gen:
             self.nixti = ns
         return self
 
+    def link_args(self):
+        """what follows the AST in a ptg_ast line when the spec is to go through the supporting links"""
+        if self.fmt == "xls":
+            return [fg.links_arg(self.links)]
+        return [fg.links_arg(self.links), ",".join("%d:%d:%d" % (a, f & U32, l_ & U32) for (a, f, l_) in self.xtis_b) or "-",
+                names_arg(self.bundle)]
+
     def env_args(self):
         # file tiers (quote_sheets): the table the readers hand to the decoder holds the sheet names as
         # formula text writes them (quoted when the grammar demands it); the hook tiers pass the list as is
         import fmlagen
-        sh = [fmlagen.sheet_text(s) for s in self.sheets] if getattr(self, "quote_sheets", False) else self.sheets
+        # xls: the decoder gets the BoundSheet8 names as stored and quotes at the lookup (also spans First:Last);
+        # xlsb file tiers: g.sheets already is the resolved extern_sheets table
+        sh = self.sheets
         a = [names_arg(sh), names_arg(self.names)]
         if self.fmt == "xls":
             a.append(",".join("%d:%d:%d" % t for t in self.xtis) if self.xtis else "-")
@@ -293,6 +340,9 @@ class Gen:
         if self.nixti == 0:
             self.ctx.count("%s:ixti:out_of_range" % self.fmt)
             return 0
+        if self.nixti > 1370 and rng.random() < 0.6:
+            self.ctx.count("%s:ixti:beyond_1370" % self.fmt)
+            return rng.randrange(1370, self.nixti)
         v = rng.randrange(0, self.nixti)
         self.ctx.count("%s:ixti:in_range" % self.fmt)
         return v
@@ -326,6 +376,8 @@ class Gen:
         leaf = depth <= 0 or rng.random() < 0.25
         if leaf:
             k = rng.choice(["ref", "ref", "area", "ref3", "area3", "name", "int", "num", "str", "bool", "err", "miss"])
+            if rng.random() < 0.06:
+                k = rng.choice(["referr", "areaerr", "referr3", "areaerr3"])   # references that no longer exist: #REF!
             if self.base is not None and rng.random() < 0.45 or rng.random() < 0.01:
                 k = rng.choice(["refn", "refn", "arean"])       # without a base: not wf (the decoder refuses them)
         else:
@@ -340,6 +392,15 @@ class Gen:
             return "refn %s %s" % (cls(), self.cref_n())
         if k == "arean":
             return "arean %s %s %s" % (cls(), self.cref_n(), self.cref_n())
+        if k in ("referr", "areaerr", "referr3", "areaerr3"):
+            rb = 2 if self.fmt == "xls" else 4
+            nj = (rb + 2) if k in ("referr", "referr3") else (2 * rb + 4)
+            if rng.random() < 0.05:
+                nj = max(0, nj + rng.choice([-1, 1]))                           # wrong size: not wf
+            junk = ".".join(str(rng.choice([0, 0, 255, rng.randrange(256)])) for _ in range(nj)) or "-"
+            if k in ("referr3", "areaerr3"):
+                return "%s %s %d %s" % (k, cls(), self.ixti(), junk)
+            return "%s %s %s" % (k, cls(), junk)
         if k == "ref3":
             return "ref3 %s %d %s" % (cls(), self.ixti(), self.cref())
         if k == "area3":
@@ -364,7 +425,17 @@ class Gen:
             return "un %s %s" % (rng.choice("+-%"), self.expr(depth - 1))
         if k == "bin":
             op = rng.randrange(3, 18) if rng.random() < 0.97 else rng.choice([2, 18])
-            return "bin %d %s %s" % (op, self.expr(depth - 1), self.expr(depth - 1))
+            if rng.random() < 0.25:
+                op = rng.choice([15, 16, 17])         # intersection, union, range: the reference operators
+            b_ = "bin %d %s %s" % (op, self.expr(depth - 1), self.expr(depth - 1))
+            if op in (15, 16, 17) and rng.random() < 0.8:
+                # as Excel writes it: a PtgMemArea / PtgMemErr / PtgMemNoMem / PtgMemFunc in front of the
+                # sub-expression built with a reference operator (4 bytes: unused / an error code; then cce)
+                m = rng.choice(["area", "area", "func", "func", "nomem", "err"])
+                w = rng.choice([0, 0, rng.getrandbits(32), 0x17, 0x2A]) if rng.random() < 0.97 else 2**32
+                c.count("%s:mem:%s" % (self.fmt, m))
+                return "mem %s %s %d %s" % (cls(), m, w, b_)
+            return b_
         if k == "par":
             return "par " + self.expr(depth - 1)
         if k == "func":
@@ -458,7 +529,8 @@ def run_ast_batch(ctx, fmt, n, tag, ftab_argc, depth=6):
     ast_lines, envs = [], []
     fmts = []
     for k in range(n):
-        g.env()
+        with_links = ctx.rng.random() < 0.6
+        g.env(links=with_links)
         # a fifth of the cases are shared formulas: decoded relative to a base cell
         g.base = None
         if ctx.rng.random() < 0.2:
@@ -472,7 +544,8 @@ def run_ast_batch(ctx, fmt, n, tag, ftab_argc, depth=6):
         ast = g.expr(d)
         ea = g.env_args()
         fmts.append(g.fmt_arg())
-        ast_lines.append("%s%d\tptg_ast\t%s\t%s\t%s" % (tag, k, fmts[-1], "\t".join(ea), ast))
+        ast_lines.append("%s%d\tptg_ast\t%s\t%s\t%s%s" % (tag, k, fmts[-1], "\t".join(ea), ast,
+                                                           "\t" + "\t".join(g.link_args()) if with_links else ""))
         envs.append(ea)
     g.base = None
     model = ctx.run_model(ast_lines)
@@ -494,7 +567,8 @@ def run_ast_batch(ctx, fmt, n, tag, ftab_argc, depth=6):
 # ------------------------------------------------------------------------------- raw / malformed rgce
 PTGS = [0x01, 0x03, 0x05, 0x08, 0x0F, 0x10, 0x11, 0x12, 0x13, 0x14, 0x15, 0x16, 0x17, 0x18, 0x19, 0x1C, 0x1D, 0x1E,
         0x1F, 0x20, 0x40, 0x21, 0x41, 0x22, 0x42, 0x62, 0x23, 0x43, 0x24, 0x44, 0x64, 0x25, 0x45, 0x26, 0x29, 0x49,
-        0x2A, 0x2B, 0x2C, 0x2C, 0x4C, 0x6C, 0x2D, 0x4D, 0x39, 0x59, 0x79, 0x3A, 0x5A, 0x3B, 0x7B, 0x3C, 0x3D, 0x02, 0x00, 0xFF]
+        0x2A, 0x2B, 0x2C, 0x2C, 0x4C, 0x6C, 0x2D, 0x4D, 0x39, 0x59, 0x79, 0x3A, 0x5A, 0x3B, 0x7B, 0x3C, 0x3D, 0x02, 0x00, 0xFF,
+        0x26, 0x27, 0x28, 0x46, 0x67, 0x68]
 
 
 def rand_token(rng, fmt):
@@ -556,6 +630,10 @@ def rand_token(rng, fmt):
         inner = b"".join(rand_token(rng, fmt) for _ in range(rng.randrange(0, 3)))
         ln = len(inner) if rng.random() < 0.8 else rng.choice([0, len(inner) + 1, 65535])
         body = struct.pack("<H", ln) + inner
+    elif p in (0x26, 0x27, 0x28, 0x46, 0x67, 0x68):
+        inner = b"".join(rand_token(rng, fmt) for _ in range(rng.randrange(0, 3)))
+        ln = len(inner) if rng.random() < 0.8 else rng.choice([0, len(inner) + 1, 65535])
+        body = (by(4) + struct.pack("<H", ln))[: rng.choice([6, 6, 6, 6, 5, 3])] + inner
     elif p in (0x2A, 0x2C, 0x4C, 0x6C):
         body = by(rb + 2)
     elif p in (0x2D, 0x4D):
@@ -691,6 +769,15 @@ def corpus(ctx):
         ("xlsb@5:300", benv, "refn a 7 2 0 1"),                                              # mixed: KQ$8 (col 302)
         ("xlsb@70000:5", benv, "refn v 1048574 0 1 0"),                                      # row offset +1048574 = -2: $A69999
         ("xlsb", benv, "refn r 0 0 1 1"),                                                    # no base cell: refused (not wf)
+        # audit 2, XLS-3 / XLSB-1b: the mem tokens Excel writes in front of union / intersection / range expressions
+        ("xls", xenv, "fvar v 4 1 par mem r area 0 bin 16 area r 0 0 1 1 1 0 1 1 area r 0 2 1 1 1 2 1 1"),    # SUM((A1:A2,C1:C2))
+        ("xlsb", benv, "fvar v 4 1 par mem r area 0 bin 16 area r 0 0 1 1 1 0 1 1 area r 0 2 1 1 1 2 1 1"),
+        ("xls", xenv, "fvar v 4 1 mem r area 0 bin 15 area r 0 0 1 1 1 1 1 1 area r 0 1 1 1 1 2 1 1"),        # SUM(A1:B2 B1:C2)
+        ("xlsb", benv, "fvar v 4 1 mem r nomem 0 bin 15 area r 0 0 1 1 1 1 1 1 area r 0 1 1 1 1 2 1 1"),
+        ("xls", xenv, "fvar v 4 1 mem r func 0 bin 17 ref r 0 0 1 1 fvar r 29 2 area r 0 0 1 1 65535 0 1 1 int 3"),   # SUM(A1:INDEX(A1:A65536,3))
+        ("xlsb", benv, "fvar v 4 1 mem r func 0 bin 17 ref r 0 0 1 1 fvar r 29 2 area r 0 0 1 1 1048575 0 1 1 int 3"),
+        ("xls", xenv, "mem r func 0 bin 16 area3 r 0 0 0 0 0 65535 1 0 0 area3 r 0 0 0 0 0 1 255 0 0"),       # Print_Titles: S2!$A$1:$B$65536,S2!$A$1:$IV$2
+        ("xlsb", benv, "mem v err 23 bin 16 ref r 0 0 1 1 mem r func 0 bin 17 ref r 1 1 1 1 mem a func 7 bin 17 ref r 2 2 1 1 ref r 3 3 1 1"),  # nested
     ] + [
         # audit G1: CHOOSE with 1, 2, 3, 4, 10 values (jump table + goto after each value)
         (fmt, env, "fvar v 100 %d int 2 post 8 %d chs %d %s int 10%s" % (
@@ -698,11 +785,26 @@ def corpus(ctx):
             "".join(" post 8 %d int %d" % (4 * (n - i), 10 + i) for i in range(1, n))))
         for n in (1, 2, 3, 4, 10) for (fmt, env) in (("xls", xenv), ("xlsb", benv))
     ]
+    # KNOWN FINDING K_EXTERN_BOOK (C14_refuted_extern_xls / _xlsb): three supporting links — add-in functions, another
+    # workbook (sheets Data, Other Sheet), this workbook — and a formula through the XTI of the other workbook:
+    # '[1]Other Sheet'!$A$1+S2!$A$1, decoded as S2!$A$1+S2!$A$1; the reference through XTI 0 (this workbook) is right
+    lk = "addin,ext:%s/%s,self" % ("Data".encode().hex(), "Other Sheet".encode().hex())
+    xenv_l = [names_arg(["S1", "S2"]), names_arg(["Their", "Ours"]), "2:1:1,1:1:1,1:0:1"]
+    benv_l = [names_arg(["S2", "S2", "S1:S2"]), names_arg(["Their", "Ours"])]
+    bextra = [lk, "2:1:1,1:1:1,1:0:1", names_arg(["S1", "S2"])]
+    cases = [c + ([],) for c in cases] + [
+        ("xls", xenv_l, "bin 3 ref3 r 1 0 0 0 0 ref3 r 0 0 0 0 0", [lk]),
+        ("xls", xenv_l, "ref3 r 0 0 0 0 0", [lk]),
+        ("xls", xenv_l, "area3 r 2 0 0 0 0 1 1 0 0", [lk]),                 # '[1]Data:Other Sheet'!$A$1:$B$2
+        ("xlsb", benv_l, "bin 3 ref3 r 1 0 0 0 0 ref3 r 0 0 0 0 0", bextra),
+        ("xlsb", benv_l, "ref3 r 0 0 0 0 0", bextra),
+        ("xlsb", benv_l, "area3 r 2 0 0 0 0 1 1 0 0", bextra),
+    ]
     ast_lines, impl_lines = [], []
-    for k, (fmt, env, ast) in enumerate(cases):
-        ast_lines.append("k%d\tptg_ast\t%s\t%s\t%s" % (k, fmt, "\t".join(env), ast))
+    for k, (fmt, env, ast, extra) in enumerate(cases):
+        ast_lines.append("k%d\tptg_ast\t%s\t%s\t%s%s" % (k, fmt, "\t".join(env), ast, "".join("\t" + e for e in extra)))
     model = ctx.run_model(ast_lines)
-    for k, (fmt, env, ast) in enumerate(cases):
+    for k, (fmt, env, ast, extra) in enumerate(cases):
         hexb = model.get("k%d" % k, "").split("|", 1)[0]
         impl_lines.append("k%d\tptg\t%s\t%s\t%s" % (k, fmt, "\t".join(env), hexb))
     # F28: PtgFunc with iftab == 485 must be an error, not a panic (raw)
@@ -710,7 +812,7 @@ def corpus(ctx):
     impl_lines.append("k28b\tptg\txlsb\t-\t-\t" + (bytes([0x21]) + struct.pack("<H", 485)).hex())
     impl = ctx.run_impl(impl_lines)
     m2 = ctx.run_model(impl_lines[-2:])
-    for k, (fmt, env, ast) in enumerate(cases):
+    for k, (fmt, env, ast, extra) in enumerate(cases):
         lid = "k%d" % k
         classify_ast(ctx, fmt, lid, ast_lines[k], impl_lines[k], model.get(lid, "(missing)"), impl.get(lid))
     for lid in ("k28a", "k28b"):
@@ -736,7 +838,6 @@ def run_files(ctx, n, ftab_argc):
     shutil.rmtree(tmp, ignore_errors=True)
     os.makedirs(tmp, exist_ok=True)
     g = Gen(ctx, "xls", ftab_argc)
-    g.quote_sheets = True
     books, ast_lines = [], []
     for k in range(n):
         g.env()
@@ -821,6 +922,29 @@ def _write(name, data):
     return path
 
 
+def _keep_file(line):
+    """the failing file of an `open` case is part of the replay: the generated files are deleted at the next run,
+    so the file is copied next to the replays and the case line is made to name the copy"""
+    import shutil, hashlib
+    f = line.split("\t")
+    if len(f) < 5 or f[1] != "open" or not os.path.isfile(f[3]):
+        return line
+    d = os.path.join(vlib.OUTROOT, "replays", "C14-files")
+    os.makedirs(d, exist_ok=True)
+    h = hashlib.sha1(open(f[3], "rb").read()).hexdigest()[:12]
+    dst = os.path.join(d, "%s-%s" % (h, os.path.basename(f[3])))
+    shutil.copyfile(f[3], dst)
+    f[3] = dst
+    return "\t".join(f)
+
+
+def _open_failure(fmt, answer):
+    """what to say when the answer to an `open` case is not one result per call"""
+    if (answer or "").startswith("panic"):
+        return "%s file through the public API: the reader PANICKED while opening / reading the workbook (%s); the file is kept with the replay" % (fmt, answer)
+    return "%s file through the public API: the workbook could not be read (%s)" % (fmt, answer)
+
+
 def _window(rng, maxr, maxc, h=24, w=8):
     """base of a small window of cells: origin, small offsets, random, and the far corner"""
     br = rng.choice([0, 0, 3, maxr - h, maxr - h, rng.randrange(0, maxr - h)])
@@ -837,9 +961,9 @@ def _check_book(ctx, fmt, line, answer, exp_names, exp_sheets, known_sheets=None
     want = [exp_names] + [e[0] for e in exp_sheets]
     pred = [model_names if model_names is not None else exp_names] + [e[1] for e in exp_sheets]
     ctx.traces += 1
-    if len(parts) != len(want):
-        ctx.violations.append({"case": line, "expected": ";;".join(want), "actual": answer, "model": ";;".join(pred),
-                               "what": "%s file through the public API: the workbook could not be read (%s)" % (fmt, answer)})
+    if len(parts) != len(want) or (answer or "").startswith("panic"):
+        ctx.violations.append({"case": _keep_file(line), "expected": ";;".join(want), "actual": answer, "model": ";;".join(pred),
+                               "what": _open_failure(fmt, answer)})
         return False
     ok = True
     for i, (got, w, p_) in enumerate(zip(parts, want, pred)):
@@ -861,7 +985,7 @@ def _check_book(ctx, fmt, line, answer, exp_names, exp_sheets, known_sheets=None
         else:
             what = ("worksheet_formula of sheet #%d: every formula text at its absolute position, \"\" elsewhere, "
                     "tight bounding box of the formula cells" % (i - 1))
-        ctx.violations.append({"case": line, "expected": ";;".join(want), "actual": answer, "model": ";;".join(pred),
+        ctx.violations.append({"case": _keep_file(line), "expected": ";;".join(want), "actual": answer, "model": ";;".join(pred),
                                "what": "%s file through the public API: %s" % (fmt, what)})
         break
     return ok
@@ -901,6 +1025,17 @@ def _pick_ast(model, lids, fallback_hex, fallback_text):
     return fallback_hex, fallback_text
 
 
+def _pick_ast3(model, lids, fallback_hex, fallback_text):
+    """like _pick_ast, for tiers that hand the supporting links to the spec: candidates of the known class
+    K_EXTERN_BOOK are taken too — (rgce hex, text the property demands, text the model predicts, known id or "-")"""
+    for lid in lids:
+        parts = model.get(lid, "").split("|")
+        if len(parts) == 5 and parts[4] == "1" and len(parts[0]) // 2 <= 4000 and parts[1].startswith("ok:") and \
+                (parts[3] != "-" or parts[1] == "ok:" + parts[2]):
+            return parts[0], bytes.fromhex(parts[2]).decode("utf-8"), bytes.fromhex(parts[1][3:]).decode("utf-8"), parts[3]
+    return fallback_hex, fallback_text, fallback_text, "-"
+
+
 NAME_POOL = ["Rate", "Bonus", "Total", "_xlnm._FilterDatabase", "_xlnm.Print_Area", "x", "Prix_€", "名前",
              "_n1", "tax.rate", "\\a", "Länge", "solver_adj", "A_very_long_defined_name_0123456789"]
 SHEET_POOL = ["Sheet1", "Sheet2", "Data", "My Sheet", "Übersicht", "数据", "S", "a'b", "Sheet 10", "Δ", "A&B", "x<y"]
@@ -922,15 +1057,27 @@ def run_xlsb_files(ctx, n, argc):
         ns = rng.randrange(1, 5)
         bundle = rng.sample(SHEET_POOL, ns)
         # extern-sheet table: deliberately not the identity on sheet indices
+        # the EXTERNALS block: the supporting links in any order (BrtSupSelf, BrtSupSame, BrtSupAddin, BrtSupBookSrc);
+        # an XTI points into this workbook exactly when its link is BrtSupSelf / BrtSupSame
+        g.links, g.local = fg.random_links(rng, "xlsb")
+        ctx.count("xlsb:file:links:%s" % fg.links_tag(g.links))
         xtis = []
         for _ in range(rng.randrange(1, 6)):
             p = rng.random()
             f = rng.randrange(0, ns) if p < 0.75 else rng.choice([-1, -2]) if p < 0.9 else rng.choice([ns, ns + 3, 70000])
-            xtis.append((0, f, f if rng.random() < 0.8 else min(ns - 1, max(f, 0))))
+            l_ = f
+            if rng.random() < 0.3:
+                l_ = rng.randrange(0, ns) if rng.random() < 0.85 else rng.choice([-1, ns, 70000])
+                ctx.count("xlsb:file:xti:span" if f >= 0 and l_ != f and 0 <= l_ < ns else "xlsb:file:xti:last_invalid_or_same")
+            xtis.append((g.isup(), f, l_))
+            if xtis[-1][0] in g.local and xtis[-1][0] > 0:
+                ctx.count("xlsb:file:xti:of_this_workbook_with_link_index>0")
         if ns > 1 and rng.random() < 0.6:
             xtis.sort(key=lambda x: -x[1])
-        ext = [fg.xlsb_resolve_xti(x[1], bundle) for x in xtis]
+        ext = [fg.xlsb_resolve_xti(x[1], bundle, x[2]) for x in xtis]
         g.sheets, g.xtis, g.nixti = ext, None, len(ext)
+        g.bundle, g.xtis_b = bundle, xtis
+        la = "\t" + "\t".join(g.link_args())
         # names: every flag combination, hidden / built-in ones first more often than not
         nn = rng.choice([0, 1, 2, 3, 4, 6])
         nm = []
@@ -946,25 +1093,32 @@ def run_xlsb_files(ctx, n, argc):
             if fl & fg.NF_BUILTIN and rng.random() < 0.7:
                 name = rng.choice(["_xlnm._FilterDatabase", "_xlnm.Print_Area", "_xlnm.Print_Titles", "_xlnm.Criteria"])
             ctx.count("xlsb:file:name_flags:%s" % ("+".join(t for b, t in ((1, "hidden"), (2, "func"), (8, "proc"), (32, "builtin")) if fl & b) or "plain"))
-            g.names = [x["name"] for x in nm]
+            nm.append({"flags": fl, "name": name, "itab": rng.choice([0xFFFFFFFF, 0xFFFFFFFF, 0, ns - 1]),
+                       "comment": rng.choice([None, None, "c", ""]), "chkey": rng.choice([0, 0, 65])})
+        if rng.random() < 0.5:
+            nm.sort(key=lambda x: x["name"].lower())      # Excel stores the names sorted
+        # the formulas: PtgName indexes the WHOLE table, so a name may use one stored after it
+        g.names = [x["name"] for x in nm]
+        for i, x_ in enumerate(nm):
             cands = []
             mode = rng.random()
             for j in range(3):
                 lid = "xbn%d_%d_%d" % (k, i, j)
                 if mode < 0.15:
                     ast = None
-                elif mode < 0.45 and g.names:
-                    ast = _name_biased_expr(g, rng)          # a name defined through an earlier name
+                elif mode < 0.5 and nn > 1:
+                    # defined through another name, stored before or (as often) after it
+                    tgt = rng.choice([t_ for t_ in range(nn) if t_ != i])
+                    ctx.count("xlsb:file:name_ref:%s" % ("forward" if tgt > i else "backward"))
+                    ast = "bin %d name %s %d %s" % (rng.choice([3, 5, 8]), rng.choice("rv"), tgt + 1, g.expr(rng.choice([0, 1])))
                 elif mode < 0.75:
                     ast = "area3 r %d %s %s" % (rng.randrange(0, len(ext)), g.cref(), g.cref())
                 else:
                     ast = g.expr(rng.choice([0, 1, 2]))
                 if ast is not None:
-                    ast_lines.append("%s\tptg_ast\txlsb\t%s\t%s" % (lid, "\t".join(g.env_args()), ast))
+                    ast_lines.append("%s\tptg_ast\txlsb\t%s\t%s%s" % (lid, "\t".join(g.env_args()), ast, la))
                     cands.append(lid)
-            nm.append({"flags": fl, "name": name, "itab": rng.choice([0xFFFFFFFF, 0xFFFFFFFF, 0, ns - 1]), "cands": cands,
-                       "comment": rng.choice([None, None, "c", ""]), "chkey": rng.choice([0, 0, 65])})
-        g.names = [x["name"] for x in nm]
+            x_["cands"] = cands
         hidden = [i for i, x in enumerate(nm) if x["flags"] & fg.NF_HIDDEN]
         after = hidden[0] + 1 if hidden else 0
         ea = g.env_args()
@@ -993,7 +1147,7 @@ def run_xlsb_files(ctx, n, argc):
                             ast = "ref3 %s %d %s" % (rng.choice("rv"), rng.randrange(0, len(ext)), g.cref())
                         else:
                             ast = g.expr(rng.choice([0, 1, 2, 3]))
-                        ast_lines.append("%s\tptg_ast\txlsb\t%s\t%s" % (lid, "\t".join(ea), ast))
+                        ast_lines.append("%s\tptg_ast\txlsb\t%s\t%s%s" % (lid, "\t".join(ea), ast, la))
                         cands.append(lid)
                     slots.append((r, c, kind, cands))
             # value cells outside the formula area: the formula range must not follow the value range
@@ -1003,15 +1157,18 @@ def run_xlsb_files(ctx, n, argc):
                     slots.insert(0, (r0 - 1, max(0, c0 - 1), "num", None))
                 slots.append((poss[-1][0] + 1, min(16383, max(p[1] for p in poss) + 2), "str", None))
             sheets.append(slots)
-        books.append((bundle, xtis, ext, nm, sheets))
+        books.append((bundle, xtis, ext, nm, sheets, list(g.links)))
     model = ctx.run_model(ast_lines)
     impl_lines, meta, model_lines, bad_lines = [], {}, [], []
-    for k, (bundle, xtis, ext, nm, sheets) in enumerate(books):
+    for k, (bundle, xtis, ext, nm, sheets, links) in enumerate(books):
         payloads, exp_names = [], []
+        known_names, known_sheets = None, None
         for x in nm:
-            hexb, text = _pick_ast(model, x["cands"], "1e0700", "7") if x["cands"] else ("", "")
+            hexb, text, mtext, kn = _pick_ast3(model, x["cands"], "1e0700", "7") if x["cands"] else ("", "", "", "-")
             payloads.append(fg.brt_name_payload(x["flags"], x["itab"], x["name"], bytes.fromhex(hexb), x["chkey"], x["comment"]))
             exp_names.append((x["name"], text))
+            if kn != "-":
+                known_names = kn
         sheet_cells, exp_sheets, mlines, tables = [], [], [], []
         for si, slots in enumerate(sheets):
             recs, cells_prop, cells_model, cells_all = [], [], [], []
@@ -1041,11 +1198,13 @@ def run_xlsb_files(ctx, n, argc):
                         ctx.count("xlsb:file:ptgexp:no_column")
                     cells_all.append((r, c, ""))
                 else:
-                    hexb, text = _pick_ast(model, what, "1e0700", "7")
+                    hexb, text, mtext, kn = _pick_ast3(model, what, "1e0700", "7")
                     recs.append((r, c, kind, bytes.fromhex(hexb)))
                     cells_prop.append((r, c, text))
-                    cells_model.append((r, c, text))
+                    cells_model.append((r, c, mtext))
                     cells_all.append((r, c, text))
+                    if kn != "-":
+                        known_sheets = kn
             sheet_cells.append(recs)
             tables.append(fg.xlsb_table_records(recs, rng))
             exp_sheets.append([fg.expected_range(cells_prop), fg.expected_range(cells_model)])
@@ -1053,14 +1212,14 @@ def run_xlsb_files(ctx, n, argc):
             mlines.append("xb%d_p%d\tfsheet\txlsb\t%s\t%s\t%s" % (k, si, names_arg(ext), names_arg([x["name"] for x in nm]),
                                                                  _recs_arg(tables[-1] + [(0x0092, b"")])))
             ctx.count("xlsb:file:formulas_per_sheet:%d" % len(cells_model))
-        tail = fg.xlsb_tail_records(xtis, payloads)
+        tail = fg.xlsb_tail_records(xtis, payloads, links=links)
         path = _write("e%d.xlsb" % k, fg.xlsb_bytes(bundle, sheet_cells, tail, rng, tables=tables))
         calls = "names;" + ";".join("formula " + hx(s) for s in bundle)
         line = "xb%d\topen\txlsb\t%s\t%s" % (k, path, calls)
         impl_lines.append(line)
         model_lines += mlines
         model_lines.append("xb%d_e\tfenv\txlsb\t%s\t-\t%s" % (k, names_arg(bundle), _recs_arg(tail)))
-        meta["xb%d" % k] = (line, fg.expected_names(exp_names), exp_sheets, None, ext)
+        meta["xb%d" % k] = (line, fg.expected_names(exp_names), exp_sheets, known_sheets, ext, known_names)
         # a malformed sibling (implementation vs model only): a truncated BrtName, or an extern-sheet
         # count that runs into the bytes an earlier record left in the reader's buffer
         if nm and rng.random() < 0.25:
@@ -1075,10 +1234,10 @@ def run_xlsb_files(ctx, n, argc):
                 nlen = struct.unpack("<I", bad[j][9:13])[0]
                 o = 13 + 2 * nlen
                 bad[j] = bad[j][:o] + struct.pack("<I", rng.choice([0xFFFFFFF0, 0x7FFFFFFF, 70000])) + bad[j][o + 4:]
-            btail = fg.xlsb_tail_records(xtis, bad)
+            btail = fg.xlsb_tail_records(xtis, bad, links=links)
         elif rng.random() < 0.15:
             btail = fg.xlsb_tail_records(xtis, payloads[:2], junk=bytes(rng.randrange(256) for _ in range(rng.choice([3, 16, 60, 200]))),
-                                         cxti=len(xtis) + rng.choice([1, 2, 5]))
+                                         cxti=len(xtis) + rng.choice([1, 2, 5]), links=links)
         else:
             btail = None
         if btail is not None:
@@ -1087,7 +1246,7 @@ def run_xlsb_files(ctx, n, argc):
                               "xbm%d\tfenv\txlsb\t%s\t-\t%s" % (k, names_arg(bundle), _recs_arg(btail))))
     impl = ctx.run_impl(impl_lines + [b[1] for b in bad_lines])
     mod2 = ctx.run_model(model_lines + [b[2] for b in bad_lines])
-    for lid, (line, en, es, known, ext) in meta.items():
+    for lid, (line, en, es, known, ext, known_names) in meta.items():
         env = mod2.get(lid + "_e", "")
         mnames = None
         if env.startswith("ok:") and "|" in env:
@@ -1102,7 +1261,8 @@ def run_xlsb_files(ctx, n, argc):
             if m != e[1]:
                 ctx.disagreements.append({"function": "formula_range (FormulaEnv model vs expansion of the generator)", "case": line,
                                           "impl": e[1], "model": m})
-        _check_book(ctx, "xlsb", line, impl.get(lid), en, [tuple(e) for e in es], known, model_names=mnames)
+        _check_book(ctx, "xlsb", line, impl.get(lid), en, [tuple(e) for e in es], known, model_names=mnames,
+                    known_names=known_names)
     for lid, il, ml in bad_lines:
         i, m = impl.get(lid), mod2.get(lid, "")
         ctx.traces += 1
@@ -1123,14 +1283,26 @@ def run_xls_files2(ctx, n, argc):
     from props import c14_xlsfile as xf
     rng = ctx.rng
     g = Gen(ctx, "xls", argc)
-    g.quote_sheets = True
     books, ast_lines = [], []
     for k in range(n):
-        g.env()
+        # the supporting links (SupBook records) in any order; an XTI points into this workbook exactly when its
+        # SupBook is the one with cch = 0x0401
+        g.env(links=True)
         ns = len(g.sheets)
+        loc = g.local[-1]
         if ns > 1 and rng.random() < 0.5:
-            g.xtis = [(0, f, f) for f in rng.sample(range(ns), ns)][::-1] + g.xtis[:2]
+            g.xtis = [(loc, f, f) for f in rng.sample(range(ns), ns)][::-1] + g.xtis[:2]
             g.nixti = len(g.xtis)
+        if rng.random() < 0.06:
+            # more XTI than fit into one ExternSheet record (1370): the array goes on in CONTINUE records
+            # (audit 2, XLS-5); Gen.ixti then prefers entries beyond the 1370th
+            g.xtis = g.xtis + [(loc, rng.randrange(ns), rng.randrange(ns)) if rng.random() < 0.2 else (loc, f_, f_)
+                               for f_ in (rng.randrange(ns) for _ in range(rng.choice([1371, 1375, 1400, 2745]) - len(g.xtis)))]
+            g.nixti = len(g.xtis)
+            ctx.count("xls:file:externsheet:more_than_1370_xti")
+        if any(x[0] in g.local and x[0] > 0 for x in g.xtis):
+            ctx.count("xls:file:xti:of_this_workbook_with_link_index>0")
+        la = "\t" + "\t".join(g.link_args())
         nn = rng.choice([0, 1, 2, 3, 4, 6])
         nm = []
         for i in range(nn):
@@ -1181,7 +1353,7 @@ def run_xls_files2(ctx, n, argc):
                 x["raw"] = rng.choice([b"", b"\x1e\x07\x00\x1e\x08\x00", b"\x02\x00", b"\x3c\x00\x00", b"\x3a\x00\x00\x01\x00\x02\x00\x03",
                                        b"\x1e\x07\x00\x03", b"\x17\x05\x00ab"])
             ctx.count("xls:file:name_formula:%s" % ("raw" if x["raw"] is not None else ast.split()[0]))
-            ast_lines.append("%s\tptg_ast\txls\t%s\t%s" % (x["lid"], "\t".join(g.env_args()), ast))
+            ast_lines.append("%s\tptg_ast\txls\t%s\t%s%s" % (x["lid"], "\t".join(g.env_args()), ast, la))
         g.names = [x["name"] for x in nm]
         hidden = [i for i, x in enumerate(nm) if x["flags"] & (fg.LF_HIDDEN | fg.LF_BUILTIN)]
         after = hidden[0] + 1 if hidden else 0
@@ -1205,28 +1377,56 @@ def run_xls_files2(ctx, n, argc):
                         ast = "ref3 %s %d %s" % (rng.choice("rv"), rng.randrange(0, g.nixti), g.cref())
                     else:
                         ast = g.expr(rng.choice([0, 1, 2, 3]))
-                    ast_lines.append("%s\tptg_ast\txls\t%s\t%s" % (lid, "\t".join(ea), ast))
+                    ast_lines.append("%s\tptg_ast\txls\t%s\t%s%s" % (lid, "\t".join(ea), ast, la))
                     cands.append(lid)
                 slots.append((r, c, cands))
             sheets.append(slots)
-        books.append((list(g.sheets), list(g.xtis), nm, sheets, rng.random() < 0.3))
+        # how the XTI array is stored: one record; two EXTERNSHEET records (calamine appends); the record and
+        # CONTINUE records, cut anywhere (not only between two XTI)
+        nb_ = 6 * len(g.xtis)
+        if nb_ > 8220:
+            split = ("cuts", [8220] * ((nb_ - 1) // 8220))
+        elif g.xtis and rng.random() < 0.25:
+            split = ("cuts", sorted(rng.randrange(0, nb_ + 1) for _ in range(rng.choice([1, 1, 2, 3]))))
+            split = ("cuts", [b - a for a, b in zip([0] + split[1], split[1])])
+        elif len(g.xtis) > 1 and rng.random() < 0.3:
+            split = ("two", None)
+        else:
+            split = ("one", None)
+        ctx.count("xls:file:externsheet:%s" % split[0])
+        books.append((list(g.sheets), list(g.xtis), nm, sheets, split, list(g.links)))
     model = ctx.run_model(ast_lines)
     impl_lines, meta, model_lines = [], {}, []
-    for k, (snames, xtis, nm, sheets, split) in enumerate(books):
+    for k, (snames, xtis, nm, sheets, split, links) in enumerate(books):
         lbls, exp_names = [], []
+        known_names, known_sheets = None, None
         for x in nm:
             parts = model.get(x["lid"], "").split("|")
-            ok = len(parts) == 5 and parts[4] == "1" and parts[3] == "-" and len(parts[0]) // 2 <= 4000
+            ok = len(parts) == 5 and parts[4] == "1" and len(parts[0]) // 2 <= 4000 and \
+                (parts[3] == "-" or parts[1].startswith("ok:"))
+            mtext = None
             if x["raw"] is not None:
                 rgce, text = x["raw"], None            # outside the grammar: implementation vs model only
             elif ok:
                 rgce, text = bytes.fromhex(parts[0])[2:], bytes.fromhex(parts[2]).decode("utf-8")
+                if parts[3] != "-":
+                    # known class K_EXTERN_BOOK: the property demands [text], the model predicts [mtext]
+                    known_names, mtext = parts[3], bytes.fromhex(parts[1][3:]).decode("utf-8")
             elif len(parts) == 5 and len(parts[0]) // 2 <= 4000:
                 rgce, text = bytes.fromhex(parts[0])[2:], None     # ill-formed AST: implementation vs model only
             else:
                 rgce, text = b"\x1e\x07\x00", "7"
-            lbls.append(fg.lbl_payload(x["flags"], x["itab"], x["stored"], x["wide"], rgce))
-            exp_names.append((x["name"], text))
+            # NameParsedFormula = rgce ++ rgcb: extra data behind the tokens (array constants, PtgExtraMem) in a
+            # quarter of the names — bytes that must not be read as tokens (audit 2, XLS-4): a PtgExtraMem-like
+            # block, the array-constant bytes of the audit's reproducer (";1234567": a legal name that made
+            # Xls::new fail), a single byte, random bytes
+            rgcb = b""
+            if rng.random() < 0.25:
+                rgcb = rng.choice([struct.pack("<HHHHH", 1, 0, 1, 0, 0), b"\x00\x00\x00\x02\x09\x00\x00x;1234567",
+                                   b"\x00\x00\x00\x01" + struct.pack("<d", 1.0), b"\x3a", bytes(rng.randrange(256) for _ in range(rng.randrange(1, 40)))])
+                ctx.count("xls:file:name:rgcb")
+            lbls.append(fg.lbl_payload(x["flags"], x["itab"], x["stored"], x["wide"], rgce, rgcb=rgcb))
+            exp_names.append((x["name"], text, mtext))
         fbs, exp_sheets, has_exp, cms = [], [], False, []
         for slots in sheets:
             fl, cp, cm = [], [], []
@@ -1245,10 +1445,12 @@ def run_xls_files2(ctx, n, argc):
                     cm.append((r, c, "7" if first_exp else ""))
                     first_exp = False
                 else:
-                    hexb, text = _pick_ast(model, slot[2], "03001e0700", "7")
+                    hexb, text, mtext, kn = _pick_ast3(model, slot[2], "03001e0700", "7")
                     fl.append((r, c, bytes.fromhex(hexb)))
                     cp.append((r, c, text))
-                    cm.append((r, c, text))
+                    cm.append((r, c, mtext))
+                    if kn != "-":
+                        known_sheets = kn
             if fl and rng.random() < 0.6:
                 # NUMBER cells outside the formula area: the formula range must not follow the value range
                 r0, c0 = fl[0][0], min(x[1] for x in fl)
@@ -1264,25 +1466,34 @@ def run_xls_files2(ctx, n, argc):
             fbs.append(fl)
             exp_sheets.append((fg.expected_range(cp, keep_empty=True), fg.expected_range(cm, keep_empty=True)))
             ctx.count("xls:file:formulas_per_sheet:%d" % len(cm))
-        data = xf.cfb_write([("Workbook", xf.workbook_stream(snames, [], xtis, fbs, lbls=lbls, split_extern=split))])
+        data = xf.cfb_write([("Workbook", xf.workbook_stream(snames, [], xtis, fbs, lbls=lbls, split_extern=(split[0] == "two"),
+                                                             extern_cuts=split[1] if split[0] == "cuts" else None,
+                                                             supbooks=links))])
         path = _write("e%d.xls" % k, data)
         calls = "names;" + ";".join("formula " + hx(s) for s in snames)
         line = "xl%d\topen\txls\t%s\t%s" % (k, path, calls)
         impl_lines.append(line)
         # the globals records that build the environment, in file order (as workbook_stream writes them)
-        grecs = [(0x01AE, struct.pack("<HH", len(snames), 0x0401))]
-        if xtis and split and len(xtis) > 1:
+        grecs = [(0x01AE, xf.supbook_record(sb, len(snames))[4:]) for sb in links]
+        if xtis and split[0] == "two":
             grecs += [(0x0017, fg.externsheet_payload(xtis[:len(xtis) // 2])), (0x0017, fg.externsheet_payload(xtis[len(xtis) // 2:]))]
+        elif xtis and split[0] == "cuts":
+            arr, parts_ = fg.externsheet_payload(xtis)[2:], []
+            for c_ in split[1]:
+                parts_.append(arr[:c_]); arr = arr[c_:]
+            parts_.append(arr)
+            grecs.append((0x0017, struct.pack("<H", len(xtis)) + parts_[0]))
+            grecs += [(0x003C, p_) for p_ in parts_[1:]]
         elif xtis:
             grecs.append((0x0017, fg.externsheet_payload(xtis)))
         grecs += [(0x0018, p_) for p_ in lbls] + [(0x000A, b"")]
         model_lines.append("xl%d_e\tfenv\txls\t%s\t%s" % (k, names_arg(snames), _recs_arg(grecs)))
         for si, cm in enumerate(cms):
             model_lines.append(_fpos_line("xl%d_p%d" % (k, si), cm, keep=True))
-        meta["xl%d" % k] = (line, exp_names, exp_sheets, has_exp, xtis)
+        meta["xl%d" % k] = (line, exp_names, exp_sheets, (known_names, known_sheets), xtis)
     impl = ctx.run_impl(impl_lines)
     mod2 = ctx.run_model(model_lines)
-    for lid, (line, en, es, has_exp, xtis) in meta.items():
+    for lid, (line, en, es, (known_names, known_sheets), xtis) in meta.items():
         env = mod2.get(lid + "_e", "")
         mnames, mparts = env or "(missing)", []
         if env.startswith("ok:") and "|" in env:
@@ -1292,25 +1503,44 @@ def run_xls_files2(ctx, n, argc):
                                           "impl": ",".join("%d:%d:%d" % t for t in xtis), "model": mx})
             mparts = mnames.split(",") if mnames else []
         want = []
-        for i, (n_, t_) in enumerate(en):
+        for i, (n_, t_, mt_) in enumerate(en):
             if t_ is None:
                 # a token stream outside the grammar: no spec; the model's prediction stands in
                 want.append(mparts[i] if i < len(mparts) else "%s=?" % hx(n_))
                 continue
             spec = "%s=%s" % (hx(n_), hx(t_))
             want.append(spec)
-            if i >= len(mparts) or mparts[i] != spec:
+            pred = spec if mt_ is None else "%s=%s" % (hx(n_), hx(mt_))     # mt_: inside the known class
+            if i >= len(mparts) or mparts[i] != pred:
                 # C14_defined_name_text_is_render_xls: on a well-formed AST the model gives the A1 text
                 ctx.disagreements.append({"function": "xls defined name (FormulaEnv model vs render)",
-                                          "case": line, "impl": spec, "model": mparts[i] if i < len(mparts) else None})
+                                          "case": line, "impl": pred, "model": mparts[i] if i < len(mparts) else None})
         for si, e in enumerate(es):
             m = mod2.get("%s_p%d" % (lid, si))
             if m != e[1]:
                 ctx.disagreements.append({"function": "formula_range (FormulaEnv model vs expansion of the generator)", "case": line,
                                           "impl": e[1], "model": m})
-        _check_book(ctx, "xls", line, impl.get(lid), ",".join(want), es, None, model_names=mnames)
+        _check_book(ctx, "xls", line, impl.get(lid), ",".join(want), es, known_sheets, model_names=mnames,
+                    known_names=known_names)
     ctx.extra["generated_xls_files"] = len(books)
     return meta, impl
+
+
+def _cross_sheet_plan(rng, ns, maxr, maxc):
+    """how the sheets of a group-file workbook relate.  None: every sheet has its own window (independent layouts).
+    Otherwise (window, anchors, roles): the sheets lie in ONE window and reuse the same anchor cells — roles[si] is
+    "orphans" (plain formulas and, after them, PtgExp cells naming the anchors, but no SHRFMLA / ARRAY / BrtShrFmla
+    record at all) or "groups" (groups starting at the anchors, few other formulas).  At least one orphans-only sheet
+    comes before a sheet with groups: whatever a reader keeps per sheet (formulas of the groups by anchor, PtgExp
+    cells by index) must not be carried from one sheet to the next (seed C06-J)"""
+    if ns < 2 or rng.random() < 0.45:
+        return None
+    br, bc = _window(rng, maxr, maxc, 40, 12)
+    anchors = sorted(set((br + rng.randrange(0, 30), bc + rng.randrange(0, 6)) for _ in range(rng.choice([1, 2, 3]))))
+    roles = [rng.choice(["orphans", "groups"]) for _ in range(ns - 1)] + ["groups"]
+    if "orphans" not in roles:
+        roles[rng.randrange(0, ns - 1)] = "orphans"
+    return (br, bc), anchors, roles
 
 
 # ---- xls shared and array formulas (former known class K_PTGEXP, xls half)
@@ -1391,7 +1621,6 @@ def run_xls_shared_files(ctx, n, argc):
     from props import c14_xlsfile as xf
     rng = ctx.rng
     g = Gen(ctx, "xls", argc)
-    g.quote_sheets = True
     books, ast_lines = [], []
     for k in range(n):
         g.env()
@@ -1399,15 +1628,26 @@ def run_xls_shared_files(ctx, n, argc):
         g.base = None
         ea = g.env_args()
         sheets = []
-        for si in range(len(g.sheets)):
-            br, bc = _window(rng, 65536, 256, 40, 12)
+        nsh = len(g.sheets)
+        plan = _cross_sheet_plan(rng, nsh, 65536, 256)
+        if plan:
+            ctx.count("xls:file:sheets_share_anchors:%d_sheets,%d_of_them_orphans_only%s" % (
+                nsh, plan[2].count("orphans"), ",first_sheet_orphans_only" if plan[2][0] == "orphans" else ""))
+        for si in range(nsh):
+            br, bc = plan[0] if plan else _window(rng, 65536, 256, 40, 12)
+            role = plan[2][si] if plan else "free"
+            anchors = list(plan[1]) if plan else []
+            rng.shuffle(anchors)
             used, items = set(), []
-            for gi in range(rng.choice([0, 1, 1, 2, 3])):
+            ngroups = 0 if role == "orphans" else rng.choice([1, 1, 2, 3]) if role == "groups" else rng.choice([0, 1, 1, 2, 3])
+            for gi in range(ngroups):
                 array = rng.random() < 0.25
                 shape = rng.choice(["col", "row", "block"])
                 h = rng.randrange(2, 7) if shape != "row" else 1
                 w = rng.randrange(2, 6) if shape != "col" else 1
                 r0, c0 = br + rng.randrange(0, 40 - h), bc + rng.randrange(0, 12 - w)
+                if role == "groups" and gi < len(anchors):
+                    r0, c0 = anchors[gi]                    # the anchor an earlier sheet's PtgExp cells name
                 cells = [(r, c) for r in range(r0, r0 + h) for c in range(c0, c0 + w)]
                 if any(q in used for q in cells):
                     continue
@@ -1436,8 +1676,17 @@ def run_xls_shared_files(ctx, n, argc):
                 ctx.count("xls:file:group:%s:%s" % ("array" if array else "shared", shape))
                 items.append({"kind": "array" if array else "shared", "cells": cells, "box": (r0, r0 + h - 1, c0, c0 + w - 1),
                               "cands": cands})
-            for _ in range(rng.choice([0, 1, 2, 4])):
-                q = (br + rng.randrange(0, 40), bc + rng.randrange(0, 12))
+            nplain = rng.choice([2, 4, 6, 9]) if role == "orphans" else rng.choice([0, 0, 1, 3]) if role == "groups" else rng.choice([0, 1, 2, 4])
+            if role == "orphans":
+                # PtgExp cells naming the anchors, late in the sheet (a high index among its formulas)
+                for t in anchors[: rng.choice([1, 2, 3])]:
+                    q = (br + rng.randrange(32, 40), bc + rng.randrange(0, 12))
+                    if q not in used and q != t:
+                        used.add(q)
+                        items.append({"kind": "orphan", "pos": q, "target": t})
+                        ctx.count("xls:file:group:orphan_ptgexp_naming_an_anchor_of_a_later_sheet")
+            for _ in range(nplain):
+                q = (br + rng.randrange(0, 32 if role == "orphans" else 40), bc + rng.randrange(0, 12))
                 if q in used:
                     continue
                 used.add(q)
@@ -1572,15 +1821,15 @@ def run_xls_shared_files(ctx, n, argc):
         preds = [mod2.get("%s_m%d" % (lid, si), "(missing)") for si in range(len(wants))]
         parts = (impl.get(lid) or "").split(";;")
         ctx.traces += 1
-        if len(parts) != len(wants):
-            ctx.violations.append({"case": line, "expected": ";;".join(wants), "actual": impl.get(lid), "model": ";;".join(preds),
-                                   "what": "xls file with shared / array formulas through the public API: the workbook could not be read"})
+        if len(parts) != len(wants) or (impl.get(lid) or "").startswith("panic"):
+            ctx.violations.append({"case": _keep_file(line), "expected": ";;".join(wants), "actual": impl.get(lid), "model": ";;".join(preds),
+                                   "what": _open_failure("xls (shared / array formulas, several sheets)", impl.get(lid))})
             continue
         for si, (got, w, m) in enumerate(zip(parts, wants, preds)):
             if got != m:
                 ctx.disagreements.append({"function": "xls worksheet_formula (real file vs FormulaSheet model)", "case": line, "impl": got, "model": m})
             if got != w:
-                ctx.violations.append({"case": line, "expected": ";;".join(wants), "actual": impl.get(lid), "model": ";;".join(preds),
+                ctx.violations.append({"case": _keep_file(line), "expected": ";;".join(wants), "actual": impl.get(lid), "model": ";;".join(preds),
                                        "what": "xls file through the public API, sheet #%d: every cell of a shared formula must report the shared "
                                                "expression translated to its own position, every cell of an array formula the array's expression" % si})
                 break
@@ -1665,24 +1914,38 @@ def run_xlsb_shared_files(ctx, n, argc):
     g = Gen(ctx, "xlsb", argc)
     books, ast_lines = [], []
     for k in range(n):
-        ns = rng.randrange(1, 4)
+        ns = rng.choice([1, 2, 2, 3, 3])
         bundle = rng.sample(SHEET_POOL, ns)
         xtis = [(0, f, f) for f in ([rng.randrange(0, ns) for _ in range(rng.randrange(1, 4))] + [rng.choice([-1, -2, ns])])]
-        ext = [fg.xlsb_resolve_xti(x[1], bundle) for x in xtis]
+        if ns > 1 and rng.random() < 0.4:
+            a_, b_ = rng.sample(range(ns), 2)
+            xtis.insert(rng.randrange(len(xtis) + 1), (0, a_, b_))          # a span of sheets
+        ext = [fg.xlsb_resolve_xti(x[1], bundle, x[2]) for x in xtis]
         g.sheets, g.xtis, g.nixti = ext, None, len(ext)
         g.names = rng.sample(NAME_POOL, rng.randrange(0, 4))
         g.base = None
         ea = g.env_args()
         sheets = []
-        for si in range(ns):
-            br, bc = _window(rng, 1048576, 16384, 40, 12)
+        nsh = ns
+        plan = _cross_sheet_plan(rng, nsh, 1048576, 16384)
+        if plan:
+            ctx.count("xlsb:file:sheets_share_anchors:%d_sheets,%d_of_them_orphans_only%s" % (
+                nsh, plan[2].count("orphans"), ",first_sheet_orphans_only" if plan[2][0] == "orphans" else ""))
+        for si in range(nsh):
+            br, bc = plan[0] if plan else _window(rng, 1048576, 16384, 40, 12)
+            role = plan[2][si] if plan else "free"
+            anchors = list(plan[1]) if plan else []
+            rng.shuffle(anchors)
             used, items = set(), []
-            for gi in range(rng.choice([0, 1, 1, 2, 3])):
+            ngroups = 0 if role == "orphans" else rng.choice([1, 1, 2, 3]) if role == "groups" else rng.choice([0, 1, 1, 2, 3])
+            for gi in range(ngroups):
                 array = rng.random() < 0.25
                 shape = rng.choice(["col", "row", "block"])
                 h = rng.randrange(2, 7) if shape != "row" else 1
                 w = rng.randrange(2, 6) if shape != "col" else 1
                 r0, c0 = br + rng.randrange(0, 40 - h), bc + rng.randrange(0, 12 - w)
+                if role == "groups" and gi < len(anchors):
+                    r0, c0 = anchors[gi]                    # the anchor an earlier sheet's PtgExp cells name
                 cells = [(r, c) for r in range(r0, r0 + h) for c in range(c0, c0 + w)]
                 if any(q in used for q in cells):
                     continue
@@ -1711,8 +1974,17 @@ def run_xlsb_shared_files(ctx, n, argc):
                 ctx.count("xlsb:file:group:%s:%s" % ("array" if array else "shared", shape))
                 items.append({"kind": "array" if array else "shared", "cells": cells, "box": (r0, r0 + h - 1, c0, c0 + w - 1),
                               "cands": cands})
-            for _ in range(rng.choice([0, 1, 2, 4])):
-                q = (br + rng.randrange(0, 40), bc + rng.randrange(0, 12))
+            nplain = rng.choice([2, 4, 6, 9]) if role == "orphans" else rng.choice([0, 0, 1, 3]) if role == "groups" else rng.choice([0, 1, 2, 4])
+            if role == "orphans":
+                # PtgExp cells naming the anchors, late in the sheet (a high index among its formulas)
+                for t in anchors[: rng.choice([1, 2, 3])]:
+                    q = (br + rng.randrange(32, 40), bc + rng.randrange(0, 12))
+                    if q not in used and q != t:
+                        used.add(q)
+                        items.append({"kind": "orphan", "pos": q, "target": t})
+                        ctx.count("xlsb:file:group:orphan_ptgexp_naming_an_anchor_of_a_later_sheet")
+            for _ in range(nplain):
+                q = (br + rng.randrange(0, 32 if role == "orphans" else 40), bc + rng.randrange(0, 12))
                 if q in used:
                     continue
                 used.add(q)
@@ -1828,15 +2100,15 @@ def run_xlsb_shared_files(ctx, n, argc):
         preds = [mod2.get("%s_m%d" % (lid, si), "(missing)") for si in range(len(wants))]
         parts = (impl.get(lid) or "").split(";;")
         ctx.traces += 1
-        if len(parts) != len(wants):
-            ctx.violations.append({"case": line, "expected": ";;".join(wants), "actual": impl.get(lid), "model": ";;".join(preds),
-                                   "what": "xlsb file with shared / array formulas through the public API: the workbook could not be read"})
+        if len(parts) != len(wants) or (impl.get(lid) or "").startswith("panic"):
+            ctx.violations.append({"case": _keep_file(line), "expected": ";;".join(wants), "actual": impl.get(lid), "model": ";;".join(preds),
+                                   "what": _open_failure("xlsb (shared / array formulas, several sheets)", impl.get(lid))})
             continue
         for si, (got, w, m) in enumerate(zip(parts, wants, preds)):
             if got != m:
                 ctx.disagreements.append({"function": "xlsb worksheet_formula (real file vs FormulaSheet model)", "case": line, "impl": got, "model": m})
             if got != w:
-                ctx.violations.append({"case": line, "expected": ";;".join(wants), "actual": impl.get(lid), "model": ";;".join(preds),
+                ctx.violations.append({"case": _keep_file(line), "expected": ";;".join(wants), "actual": impl.get(lid), "model": ";;".join(preds),
                                        "what": "xlsb file through the public API, sheet #%d: every cell of a shared formula must report the shared "
                                                "expression translated to its own position, every cell of an array formula the array's expression" % si})
                 break
@@ -2168,6 +2440,39 @@ def run_fixture_regressions(ctx):
         # tests/issue_182.xlsb, first sheet: A2 = _xlfn.CONCAT("A","b") (audit E4: was User(_xlfn.CONCAT,"A","b"))
         ("fx182", "xlsb", os.path.join(repo, "tests", "issue_182.xlsb"), (1, 0), '_xlfn.CONCAT("A","b")'),
     ]
+    # audit 2 (round 9): the reproducer files of the defects XLS-3 / XLSB-1b, XLSB-2, XLS-4, XLS-5 (notes/audit2/repro),
+    # with the texts Excel shows — regression cases of the repaired readers
+    rep = os.path.join(vlib.ROOT, "notes", "audit2", "repro", "out")
+    cases += [
+        ("au_x3a", "xls", os.path.join(rep, "xls_2_memtokens.xls"), (3, 0), "SUM((A1:A2,C1:C2))"),
+        ("au_x3b", "xls", os.path.join(rep, "xls_2_memtokens.xls"), (3, 1), "SUM(A1:B2 B1:C2)"),
+        ("au_x3c", "xls", os.path.join(rep, "xls_2_memtokens.xls"), (3, 2), "SUM(A1:INDEX(A1:A65536,3))"),
+        ("au_b1a", "xlsb", os.path.join(rep, "xlsb_1_memarea.xlsb"), (4, 1), "SUM((A1:A2,C1:C2))"),
+        ("au_b1b", "xlsb", os.path.join(rep, "xlsb_1_memfunc.xlsb"), (4, 1), "SUM((A1:A2,C1:C2))"),
+        ("au_x5", "xls", os.path.join(rep, "xls_7_externsheet_cont.xls"), (0, 1), "Sheet3!$A$1"),        # through XTI 1375
+    ]
+    name_cases = [
+        ("au_x3n", "xls", os.path.join(rep, "xls_2_memtokens.xls"),
+         [("_xlnm.Print_Titles", "Sheet1!$A$1:$B$65536,Sheet1!$A$1:$IV$2"), ("Multi", "Sheet1!$A$1:$A$2,Sheet1!$C$1"), ("Single", "Sheet1!$A$1:$A$2")]),
+        ("au_b2n", "xlsb", os.path.join(rep, "xlsb_2_forward_name.xlsb"), [("Alpha", "Beta*2"), ("Beta", "5"), ("Gamma", "Alpha+Beta")]),
+        # XLS-4: array constants behind the rgce ({PtgArray} is how the reader writes an array constant: outside the grammar)
+        ("au_x4a", "xls", os.path.join(rep, "xls_4a_lbl_rgcb.xls"),
+         [("First", "Sheet1!$A$1"), ("Arr", "{PtgArray}"), ("HiddenLocal", "Sheet1!$B$2"), ("Empty", "empty rgce"), ("Last", "Sheet1!$C$3")]),
+        ("au_x4b", "xls", os.path.join(rep, "xls_4b_lbl_rgcb_semicolon.xls"), [("First", "Sheet1!$A$1"), ("Txt", "{PtgArray}")]),
+    ]
+    for lid, fmt, path, want in name_cases:
+        if not os.path.exists(path):
+            ctx.notes.append("fixture %s not found" % path)
+            continue
+        line = "%s\topen\t%s\t%s\tnames" % (lid, fmt, path)
+        got = ctx.run_impl([line]).get(lid, "")
+        ctx.traces += 1
+        exp = fg.expected_names(want)
+        if got != exp:
+            ctx.violations.append({"case": line, "expected": exp, "actual": got, "model": None,
+                                   "what": "audit reproducer %s: defined_names" % os.path.basename(path)})
+        else:
+            ctx.nontrivial("fixture:" + lid)
     for lid, fmt, path, (r, c), text in cases:
         if not os.path.exists(path):
             ctx.notes.append("fixture %s not found" % path)
